@@ -48,6 +48,7 @@ STEPS = (
     + [("tick", 0.6)]
     + [("send", 0), ("send", 0.3), ("send", None)]
     + [("during_arrive", "a"), ("during_arrive", "up"), ("during_ts", 0), ("during_sigint", 0)]
+    + [("during_ts_preempt", 0)]
 )
 UNITS = {"a": [b"a"], "e2": ["é".encode("utf8")], "e3": ["€".encode("utf8")], "e4": ["😀".encode("utf8")], "up": [b"\x1b[A"],
          "f5": [b"\x1b[15~"], "ab": [b"a", b"b"], "burst": [b"a"] + ["é".encode("utf8")] * 515, "burstesc": [b"\x1b[A"] * 400,
@@ -136,12 +137,30 @@ def run_history(steps, thr, sig):
 
         def mk(tag):
             counter[0] += 1
+            if tag == "ts":
+                # recorded when the callback constructs it (the callback may run in another thread, see during_ts_preempt)
+                def make(**k):
+                    ev = Ev((tag, counter[0]), **k)
+                    fired["ts"].append(ev)
+                    return ev
+                return make
             return lambda **k: Ev((tag, counter[0]), **k)
 
         trig = {0: None, 1: None}
         ts_cb = [None]
         sched_cb = [None]
         problems = []
+        pending_ts = []
+
+        def finish_threads():
+            for o in pending_ts:
+                while not o.done:
+                    o.resume()
+            m.other = None
+
+        def hard_deliverable():
+            return bool(inp.queued_events or inp.queued_interrupting_events or inp.sigints
+                        or any(w < m.clock for (w, _) in inp.queued_scheduled_events))
 
         def deliverable():
             if m.tty_in or inp.unprocessed_bytes:
@@ -189,6 +208,11 @@ def run_history(steps, thr, sig):
                         pend = [e for e in fired["sched"] if not any(e is g for g in got["sched"])]
                         if any(e.when < it.when - 1e-9 for e in pend):
                             problems.append("scheduled event returned while one with an earlier time was pending")
+                        # equal times: the events of one trigger come out in trigger order
+                        idx = [i for i, e in enumerate(fired["sched"]) if e is it]
+                        if idx and any(abs(e.when - it.when) <= 1e-9 and not any(e is g for g in got["sched"][:-1])
+                                       for e in fired["sched"][:idx[0]]):
+                            problems.append("scheduled events with equal times returned out of trigger order")
                 else:
                     problems.append("unexpected item %r" % (it,))
 
@@ -215,9 +239,7 @@ def run_history(steps, thr, sig):
                 elif kind == "ts_event":
                     if ts_cb[0] is None:
                         ts_cb[0] = inp.threadsafe_event_trigger(mk("ts"))
-                    n0 = len(inp.queued_interrupting_events)
                     ts_cb[0]()
-                    fired["ts"].append(inp.queued_interrupting_events[n0])
                 elif kind == "sched":
                     if sched_cb[0] is None:
                         sched_cb[0] = inp.scheduled_event_trigger(mk("sched"))
@@ -237,9 +259,22 @@ def run_history(steps, thr, sig):
                         ts_cb[0] = inp.threadsafe_event_trigger(mk("ts"))
 
                     def act(mm):
-                        n0 = len(inp.queued_interrupting_events)
                         ts_cb[0]()
-                        fired["ts"].append(inp.queued_interrupting_events[n0])
+                    m.schedule.append((m.clock + 0.1, act))
+                elif kind == "during_ts_preempt":
+                    # the callback runs in a second (real) thread that is descheduled right after its write to the wake-up
+                    # pipe; the blocked request runs until it blocks again or returns, then the thread continues
+                    if ts_cb[0] is None:
+                        ts_cb[0] = inp.threadsafe_event_trigger(mk("ts"))
+
+                    def act(mm):
+                        def body():
+                            ts_cb[0]()
+
+                        mm.other = osmodel.OtherThread(body)
+                        mm.preempt_after_write = True
+                        pending_ts.append(mm.other)
+                        mm.other.resume()
                     m.schedule.append((m.clock + 0.1, act))
                 elif kind == "during_sigint":
                     def act(mm):
@@ -262,10 +297,16 @@ def run_history(steps, thr, sig):
                         continue
                     except RuntimeError as ex:
                         if str(ex).startswith("model:"):
+                            finish_threads()
+                            if hard_deliverable():
+                                return "request blocks (no timeout, nothing further happens) while an event is deliverable"
                             return None      # this history would block forever: not a case
                         raise
+                    finally:
+                        finish_threads()
                     note(r, t0, arg, was)
             # drain: everything still pending must come out, nothing twice
+            finish_threads()
             for _ in range(3000):
                 t0 = m.clock
                 was = deliverable()
